@@ -73,6 +73,35 @@ def model_expr(case, mode):
     return 'run_obs %s %s %s %s %s' % (z(c[0]), z(c[1]), z(c[2]), z(c[3]), ops_expr(case))
 
 
+def normalize(obs):
+    """close_all_resources walks HashMaps: inside one operation a maximal run of consecutive unavailable-image
+    (unavailable-counter) callbacks is put in the order of the registration ids (stable), on both sides."""
+    if isinstance(obs, int) or obs[0] != 'list':
+        return obs
+    out = []
+    for item in obs[1]:
+        if isinstance(item, int) or item[0] != 'tuple' or len(item[1]) != 3 or isinstance(item[1][1], int) or item[1][1][0] != 'list':
+            out.append(item)
+            continue
+        cbs = item[1][1][1]
+        res, i = [], 0
+        while i < len(cbs):
+            c = cbs[i]
+            name = c[1] if (not isinstance(c, int) and c[0] == 'app') else None
+            if name in ('CbUnavailImg', 'CbUnavailCtr'):
+                j = i
+                while j < len(cbs) and not isinstance(cbs[j], int) and cbs[j][0] == 'app' and cbs[j][1] == name:
+                    j += 1
+                run = sorted(cbs[i:j], key=lambda t: t[2][0] if t[2] and isinstance(t[2][0], int) else 0)
+                res.extend(run)
+                i = j
+            else:
+                res.append(c)
+                i += 1
+        out.append(('tuple', [item[1][0], ('list', res), item[1][2]]))
+    return ('list', out)
+
+
 def clean_scratch():
     """Scratch directories of harness processes that were killed (hang watchdog) are removed after ten minutes."""
     from vlib import core
@@ -436,6 +465,7 @@ def scripted():
     h('driver-silent', 'hb 1000000; ap 1 1; tk 10001; w; ap 1 1; fp 1; w')
     h('heartbeat-lost', 'hb 1000000; hc 1; as 1 1; tk 501; w; we sr 1 6; fs 1; hc 2; tk 501; w; fs 1; ps 1; tk 501; w')
     h('counter-limits', 'hb 1000000; ac 1 112 10; ac 1 113 10; ac 1 0 381; ac 1 0 380; fc 1; fc 2')
+    h('unavailable-counter-event-and-close-in-one-cycle', 'hb 1000000; ac 0 0 64; we cr 1 43; tk 9999; hb 1009999; we uc 4 58', cfg=(0, 1000000, 10000, 1000))
     h('client-timeout-foreign', 'hb 1000000; ap 1 1; we ct 77; fp 1; we ct 0; fp 1; we ct 0; w')
     return [conv(c) for c in H]
 
